@@ -269,3 +269,52 @@ def gate_trace_violations(graph, log):
             problems.append(f"gated node {name} started (call #{pos}) although no controlling gate's latest decision names it and every controlling gate has already decided "
                             f"(gates={gates}, decisions so far={[(gn, 'END' if d is END else d) for p, gn, d in log.decisions if p <= pos]})")
     return problems
+
+
+# ----------------------------------------------------------------------------------------------- ticker / watcher (signals in cycles)
+def gen_ticker(rng: random.Random):
+    return {"family": "ticker", "limit": rng.randint(1, 4), "chain": rng.randint(0, 3), "watch_first": rng.random() < 0.5, "n_watch": rng.randint(1, 2), "async": rng.random() < 0.5,
+            "watch_data": rng.random() < 0.7}
+
+
+def build_ticker(spec, log=None):
+    """tick: gated loop body emitting 'ticked' on every run; watchers wait for 'ticked' and (optionally) need a data value
+    that arrives `chain` supersteps late."""
+    log = log or Log()
+    a = spec["async"]
+    tick = tagged_node("tick", ["count"], ["count"], log, op="sum", emit=("ticked",), is_async=a)
+    again = gate_node("again", "route", ["count"], log, lambda args: "tick" if args["count"] < spec["limit"] else END, targets=["tick", END])
+    chain, prev = [], "x"
+    for j in range(spec["chain"]):
+        chain.append(tagged_node(f"s{j}", [prev], [f"v{j}"], log, is_async=a))
+        prev = f"v{j}"
+    watchers = [tagged_node(f"watch{w}", [prev] if spec["watch_data"] else [], [f"seen{w}"], log, wait_for=("ticked",), is_async=a) for w in range(spec["n_watch"])]
+    nodes = (watchers + [tick, again] + chain) if spec["watch_first"] else ([tick, again] + chain + watchers)
+    return Graph(nodes), log
+
+
+def ordering_violations(graph, log):
+    """Generic oracle from the C17 statement on the step-stamped execution log of ANY program."""
+    problems = []
+    producers = {}
+    for n in graph.nodes.values():
+        for o in n.outputs:
+            producers.setdefault(o, set()).add(n.name)
+    calls = [(log.calls.steps[i], name) for i, (name, _a) in enumerate(log.calls)]
+    last_run = {}
+    for i, (step, name) in enumerate(calls):
+        node = graph.nodes.get(name)
+        for w in (getattr(node, "wait_for", ()) or ()):
+            prods = producers.get(w, set()) - {name}
+            if not prods:
+                continue
+            before = [s for s, n in calls[:i] if n in prods and s < step]
+            same = [n for s, n in calls if n in prods and s == step]
+            if not before:
+                problems.append(f"{name} (step {step}) started before any producer of awaited name '{w}' had completed")
+            if same:
+                problems.append(f"{name} started in the same step ({step}) as producer {same[0]} of awaited name '{w}'")
+            if name in last_run and not [s for s in before if s >= last_run[name]]:
+                problems.append(f"{name} ran again at step {step} although '{w}' was not produced again since its previous run at step {last_run[name]}")
+        last_run[name] = step
+    return problems
